@@ -1604,6 +1604,80 @@ fn c15_failed_commit_record_stays_in_log(dir: PathBuf) -> ScenFut<'static> {
     })
 }
 
+/// Two-entry transactions whose size walks across "just fits / just does not fit an empty
+/// memtable": whatever commit() answers, the transaction is there entirely (answer Ok) or not
+/// at all (answer Err) - for a reader begun afterwards and after close + reopen.
+fn c15_sizes_around_a_memtable(dir: PathBuf) -> ScenFut<'static> {
+    Box::pin(async move {
+        let cap = 64 * 1024usize;
+        let mut accepted = 0;
+        let mut refused = 0;
+        for (i, vlen) in (cap - 900..cap + 120).step_by(12).enumerate() {
+            let d = dir.join(format!("s{i}"));
+            let cfg = Cfg { max_memtable_size: cap, ..base_cfg() };
+            let t = cfg.open(&d).map_err(|e| e.to_string())?;
+            put(&t, &[(b"base", b"0")]).await?;
+            let big = vec![0x37u8; vlen];
+            // begun before the big transaction: if that one fails, this one may write its keys
+            let mut old = t.begin().map_err(|e| e.to_string())?;
+            let r = put(&t, &[(b"a_small", b"first-entry-of-the-transaction"), (b"k_big", &big[..])]).await;
+            let small = get1(&t, b"a_small")?;
+            let bigv = get1(&t, b"k_big")?;
+            let mut stale_committed = false;
+            if let Err(e) = &r {
+                old.set(b"a_small", b"written-by-the-older-transaction").map_err(|e| e.to_string())?;
+                match old.commit().await {
+                    Ok(()) => stale_committed = true,
+                    Err(e2) => {
+                        close(t).await;
+                        return Err(format!("memtable of {cap} bytes, transaction {{a_small, k_big of {vlen} bytes}}: commit() returned an error ({e}); a transaction begun before it then wrote a_small and was refused: {e2} (no commit had succeeded in between)"));
+                    }
+                }
+            } else {
+                drop(old);
+            }
+            let after = put(&t, &[(b"later", b"x")]).await;
+            close(t).await;
+            let t = cfg.open(&d).map_err(|e| format!("reopen after a transaction of {vlen} value bytes (memtable {cap}): {e}"))?;
+            let small2 = get1(&t, b"a_small")?;
+            let big2 = get1(&t, b"k_big")?;
+            let later2 = get1(&t, b"later")?;
+            close(t).await;
+            let _ = std::fs::remove_dir_all(&d);
+            let whole = |s: &Option<Vec<u8>>, b: &Option<Vec<u8>>| s.as_deref() == Some(&b"first-entry-of-the-transaction"[..]) && b.as_deref() == Some(&big[..]);
+            let none = |s: &Option<Vec<u8>>, b: &Option<Vec<u8>>| s.is_none() && b.is_none();
+            match &r {
+                Ok(()) => {
+                    accepted += 1;
+                    if !whole(&small, &bigv) || !whole(&small2, &big2) {
+                        return Err(format!("memtable of {cap} bytes, transaction {{a_small, k_big of {vlen} bytes}}: commit() returned Ok, but a_small present: {}/{} (now/after reopen), k_big intact: {}/{}", small.is_some(), small2.is_some(), bigv.as_deref() == Some(&big[..]), big2.as_deref() == Some(&big[..])));
+                    }
+                }
+                Err(e) => {
+                    refused += 1;
+                    if !none(&small, &bigv) {
+                        return Err(format!("memtable of {cap} bytes, transaction {{a_small, k_big of {vlen} bytes}}: commit() returned an error ({e}), yet a reader begun afterwards sees part of it: a_small present: {}, k_big present: {}", small.is_some(), bigv.is_some()));
+                    }
+                    if big2.is_some() || (stale_committed && small2.as_deref() != Some(&b"written-by-the-older-transaction"[..])) {
+                        return Err(format!("memtable of {cap} bytes, transaction {{a_small, k_big of {vlen} bytes}}: commit() returned an error ({e}), then an older transaction set a_small; after close + reopen a_small = {:?}, k_big present: {}", small2.map(|v| String::from_utf8_lossy(&v).to_string()), big2.is_some()));
+                    }
+                }
+            }
+            match after {
+                Ok(()) if later2.as_deref() != Some(&b"x"[..]) => {
+                    return Err(format!("commit acknowledged after a transaction of {vlen} value bytes ({}) is missing after reopen", if r.is_ok() { "accepted" } else { "refused" }));
+                }
+                Err(e) => return Err(format!("after a transaction of {vlen} value bytes ({}) the next small commit fails: {e}", if r.is_ok() { "accepted" } else { "refused" })),
+                _ => {}
+            }
+        }
+        if accepted == 0 || refused == 0 {
+            return Err(format!("harness: the size walk did not cross the boundary (accepted {accepted}, refused {refused})"));
+        }
+        Ok(())
+    })
+}
+
 /// Many keys x 3 versions, flushed and reopened, both back-ends: the version index spans many
 /// leaf pages, so seeks land on every position of a leaf, also its first and last entry.
 fn c10_wide_version_index(dir: PathBuf) -> ScenFut<'static> {
@@ -1954,6 +2028,12 @@ pub fn all() -> Vec<Scenario> {
             property: "C15",
             title: "transaction larger than a memtable: commit fails; then close + reopen",
             run: c15_failed_commit_record_stays_in_log,
+        },
+        Scenario {
+            id: "C15-transaction-sizes-around-a-memtable",
+            property: "C15",
+            title: "two-entry transactions from just below to just above what an empty memtable takes",
+            run: c15_sizes_around_a_memtable,
         },
         Scenario {
             id: "C16-filter-block-unchecked",
